@@ -219,6 +219,61 @@ def api_cancel_msg(rp, which, form):
     return json.loads(json.dumps(sent[0]))
 
 
+def run_tmgr_bulk(rp, kind, msgs):
+    """the REAL tmgr scheduler (RoundRobin / Backfilling) fed state messages which carry SEVERAL notifications each, also
+    several for one pilot (the pilot manager publishes what it collected since the last message); returns the state
+    value the scheduler tracks per pilot after every message"""
+    from props import c12
+    s = c12.make_sched(rp, kind)
+    vals = rp.states._pilot_state_values
+    out = []
+    for m in msgs:
+        err = None
+        try:
+            s._base_state_cb('state', {'cmd': 'update', 'arg': [
+                {'type': 'pilot', 'uid': c12.pname(p), 'state': st} for p, st in m]})
+        except Exception as e:
+            err = type(e).__name__
+        out.append({'err': err, 'tracked': {c12.pnum(pid): vals.get(v.get('state'), -1) for pid, v in s._pilots.items()}})
+    return out
+
+
+def tmgr_bulk_monitor(rp, msgs, out):
+    vals = rp.states._pilot_state_values
+    seen = {}
+    for k, (m, o) in enumerate(zip(msgs, out)):
+        if o['err']:
+            return ('tmgr-scheduler:state-message-raises', 'message %d %s raised %s' % (k, m, o['err']))
+        for p, st in m:
+            seen[p] = max(seen.get(p, -1), vals[st])
+        for p, v in seen.items():
+            if o['tracked'].get(p, -1) < v:
+                return ('tmgr-scheduler:notified-pilot-state-lost',
+                        'after message %d %s the scheduler tracks value %s for pilot %d; value %d was notified'
+                        % (k, m, o['tracked'].get(p), p, v))
+        if k and any(o['tracked'].get(p, -1) < v for p, v in out[k - 1]['tracked'].items()):
+            return ('tmgr-scheduler:pilot-state-moved-backwards', 'message %d %s' % (k, m))
+    return None
+
+
+def gen_tmgr_bulk(rng):
+    sts = ['NEW', 'PMGR_LAUNCHING_PENDING', 'PMGR_LAUNCHING', 'PMGR_ACTIVE_PENDING', 'PMGR_ACTIVE', 'PMGR_ACTIVE']
+    final = {}
+    msgs = []
+    for _ in range(rng.randint(1, 5)):
+        m = []
+        for _ in range(rng.choice([1, 2, 2, 3, 4])):
+            p = rng.randrange(3)
+            if rng.random() < 0.25:
+                # a pilot ends in one final state; it may be notified again, late non-final notifications follow it
+                final.setdefault(p, rng.choice(['DONE', 'FAILED', 'CANCELED']))
+                m.append([p, final[p]])
+            else:
+                m.append([p, rng.choice(sts)])
+        msgs.append(m)
+    return msgs
+
+
 def bootstrap_block(src):
     """the final-state block of bootstrap_0.sh (text, executed by bash)"""
     bs = open(os.path.join(src, 'agent', 'bootstrap_0.sh')).read()
@@ -420,6 +475,18 @@ def run(ctx):
                 ctx.fail('tmgr-scheduler:' + sig, what, {'kind': 'tmgr_sched', 'sched': kind, 'ops': script})
                 break
     ctx.obligation('tmgr scheduler: tracked pilot states monitored on the real RoundRobin / Backfilling objects', 'tie', True, '')
+    corpus = [[[[0, 'DONE'], [0, 'PMGR_ACTIVE']]], [[[0, 'PMGR_ACTIVE'], [1, 'NEW'], [0, 'PMGR_ACTIVE_PENDING']], [[1, 'PMGR_ACTIVE']]]]
+    nb = 0
+    for i, msgs in enumerate(corpus + [gen_tmgr_bulk(ctx.rng) for _ in range(ctx.n(200, 5000))]):
+        kind = 'bf' if i % 2 else 'rr'
+        out = run_tmgr_bulk(rp, kind, msgs)
+        nb += 1
+        ctx.case({'tmgr_bulk': msgs, 'sched': kind}, nontrivial=any(len(set(p for p, _ in m)) < len(m) for m in msgs))
+        bad = tmgr_bulk_monitor(rp, msgs, out)
+        if bad:
+            ctx.fail(bad[0], bad[1], {'kind': 'tmgr_bulk', 'sched': kind, 'msgs': msgs}, observed=out)
+    ctx.obligation('tmgr scheduler: %d histories of state messages carrying several notifications each (also several for one pilot): '
+                   'no notified state is lost, none moves backwards' % nb, 'tie', True, '')
     ctx.rule = ('exhaustive: all pilot state pairs; all notification streams of length <=2 (quick) / <=3 (thorough) from every '
                 'start state; all agent event sequences of length <=4 over {lifetime, cancel naming the pilot, foreign cancel, '
                 'terminate} x {finalize runs afterwards, finalize runs in the main thread during the first stop(), agent dies before}; sampled: random streams of length 3-9; '
@@ -433,6 +500,11 @@ def run(ctx):
 def replay(ctx, data):
     rp  = rpload.load()
     inp = data['input']
+    if inp['kind'] == 'tmgr_bulk':
+        out = run_tmgr_bulk(rp, inp['sched'], inp['msgs'])
+        bad = tmgr_bulk_monitor(rp, inp['msgs'], out)
+        print('observed:', out, bad)
+        return not bad
     if inp['kind'] == 'tmgr_sched':
         from props import c12
         _, res, viol, _ = c12.run_script(rp, inp['sched'], inp['ops'])
